@@ -58,6 +58,10 @@ CHECKS = {
          "each documented pattern check (5,7,8,13,14,15,16,19,20,21) is confronted with every instance and near-miss of its small space planted in every context; on the instance line the type must appear exactly once, must not appear, or is not judged, and never on another line",
          "trusted: matchers written from docs/manual/config.md and the property text; don't-care zones listed in the evidence; bounds: 13 operators x 10x10 operands x 12 contexts x 4/9 wraps, tables <=3 entries, <=3 targets/values/parameters/conditions",
          "DESIGN.md §4 C20"),
+ 'C17': ("exhaustive enumeration of configurations (all 2^26 flag vectors on the real flag mapping; all 1-3 flag deviations x 3 delivery channels and all ignore-rule subsets <=2 x channels on the real server) with a metamorphic oracle diag(c) = filter_c(diag(all enabled))",
+         "the complete flag space is pushed through the real flag-to-ignore-set mapping, and on a fixed workspace that triggers 19 diagnostic types every one/two/three-flag deviation from all-on and all-off, the master switch and every subset <=2 of file ignore rules (literal, folder, regex, non-matching, invalid regex) is run on the real server through initializationOptions, a later didChangeConfiguration and luahelper.json; the shown diagnostics must be exactly the all-enabled ones that the configuration does not exclude; malformed patterns must not take the server down",
+         "trusted: the filter semantics as stated by the property and docs/manual/config.md (substring or Go regex on the file path); the workspace in checks/c17.go; the check reports a vacuous baseline if fewer than 14 types appear",
+         "DESIGN.md §4 C17"),
 }
 NOT_YET = "check not built yet in this round (planned: see DESIGN.md section 4); no claim is made"
 
